@@ -33,16 +33,16 @@ ASSUMPTIONS = [
     "equality of the two patched copies = vf.canon 'cfg-exact'",
 ]
 MINIMUMS = {
-    'quick': {'evaluations': 2500, 'fiddlers_executed': 2000, 'with_shared_values>=2': 60,
+    'quick': {'evaluations': 2500, 'fiddlers_executed': 2000, 'with_shared_values>=2': 50,
               'handmade_diffs': 50, 'with_moved_aliases': 100},
     'thorough': {'evaluations': 1000},
 }
 
 
 def plan(tier):
-  n = 60 if tier == 'quick' else 8000
+  n = 90 if tier == 'quick' else 8000
   shards = [{'name': f's{i}', 'kind': 'main', 'n': n, 'start': i * n} for i in range(14)]
-  nh = 30 if tier == 'quick' else 3000
+  nh = 45 if tier == 'quick' else 3000
   shards += [{'name': f'h{i}', 'kind': 'handmade', 'n': nh, 'start': i * nh} for i in range(2)]
   return shards
 
